@@ -163,6 +163,7 @@ Section Spec.
   Proof.
     intros H. unfold parse_int_literal. destruct (has_exponent s) eqn:He; cbn [negb].
     - destruct (split_number s) as [[[[neg ip] fp] ex]|]; [|apply post_unsupported].
+      destruct (Z.eqb (dec_value ip) 0); [reflexivity|].
       destruct (Z.leb 400 ex); [apply post_syntax|].
       destruct (Z.ltb 20 ex || Z.ltb ex 0); [apply post_unsupported|].
       cbv zeta. match goal with |- context [if ?c then _ else _] => destruct c end;
